@@ -298,6 +298,13 @@ func newCBDriver(cfg cbConfig) (*cbDriver, error) {
 		d.entered <- id
 		st := <-rel
 		if st != 0 {
+			if id%5 == 3 {
+				// an informational response first, as a reverse proxy relaying a backend's 103 Early Hints does; the
+				// response that counts is the final one
+				w.Header().Set("Link", "</style.css>; rel=preload")
+				w.WriteHeader(http.StatusEarlyHints)
+				w.Header().Del("Link")
+			}
 			w.WriteHeader(st)
 		}
 	})
